@@ -1,7 +1,7 @@
 #!/bin/bash
 # usage: silentmatrix.sh [glob]   -> runs all 20 checks on every behaviour-preserving refactor in /verif/silent; prints the alarming ones
 G=${1:-*}
-ls /verif/silent/$G.diff | xargs -P 6 -I{} sh -c 'l=$(basename {} .diff); /verif/tools/patchcheck.sh {} $l' | sort > /tmp/silentmatrix.out
+ls /verif/silent/$G.diff | xargs -P 7 -I{} sh -c 'l=$(basename {} .diff); /verif/tools/patchcheck.sh {} $l' | sort > /tmp/silentmatrix.out
 grep -vc " clean$" /tmp/silentmatrix.out | sed 's/^/alarming: /'
 grep -c " clean$" /tmp/silentmatrix.out | sed 's/^/clean: /'
 grep -v " clean$" /tmp/silentmatrix.out
